@@ -27,7 +27,9 @@ def parseOp (op : String) (kv : KV) : Option Op :=
   | "rollout-stop" => do pure (.rolloutStop (← getNat kv "c") (← getB kv "svc"))
   | "req" => do pure (.req (← getNat kv "r") (← getB kv "svc") (← getB kv "cookie") (← getBool kv "hc"))
   | "release" => do pure (.release (← get kv "label") (← get kv "key"))
-  | "respond" => do pure (.respond (← getNat kv "r") (← getNat kv "status"))
+  | "respond" => do
+    if (get kv "sse") == some "1" then pure (.respondHdr (← getNat kv "r") (← getNat kv "status"))
+    else pure (.respond (← getNat kv "r") (← getNat kv "status"))
   | "advance" => do pure (.advance (← getNat kv "ns"))
   | _ => none
 
